@@ -933,6 +933,25 @@ func TestChild(t *testing.T) {
 	shard.Emit(res)
 }
 
+// TestChildGoexit: tmon.GoexitScenario in a child of its own.
+func TestChildGoexit(t *testing.T) {
+	idx, _, _, ok := shard.Child()
+	if !ok {
+		t.Skip("not a shard child")
+	}
+	res := shard.NewResult()
+	defer shard.Emit(res)
+	sig, what, phase, evals := tmon.GoexitScenario(idx)
+	res.Evals += int64(evals)
+	if sig != "" {
+		res.Violation(sig, what, map[string]any{"scenario": "goexit", "phase": phase, "variant": idx % 3})
+		return
+	}
+	res.Counters["goexit_children"]++
+	res.Counters["callbacks_that_ended_their_goroutine"] += 21
+	res.Classes = append(res.Classes, fmt.Sprintf("goexit-child-%d", idx%3))
+}
+
 func TestCheck(t *testing.T) {
 	run := report.New("C13", "exploration")
 	defer run.Finish(t)
@@ -949,6 +968,13 @@ func TestCheck(t *testing.T) {
 	go func() {
 		defer nwg.Done()
 		for c := range shard.Run(run, "TestChild", "native", runtime.NumCPU(), 45*time.Minute) {
+			run.DistinctStr(c)
+		}
+	}()
+	nwg.Add(1)
+	go func() {
+		defer nwg.Done()
+		for c := range shard.Run(run, "TestChildGoexit", "goexit", 3, 5*time.Minute) {
 			run.DistinctStr(c)
 		}
 	}()
